@@ -48,6 +48,7 @@ type Fact struct {
 }
 
 type Oblig struct {
+	fastTried bool
 	name   string
 	kind   string
 	fn     string
@@ -157,6 +158,7 @@ type Engine struct {
 	frame *frame
 	globalOrder []types.Object
 	strLitOrder []string
+	phaseFast bool // solveAll phase 1: stop after the fast path
 	numeral bool
 	digitsDefined map[string]bool
 	numLitDone map[string]bool
